@@ -479,6 +479,9 @@ class C06(Prop):
                     return
                 for x, y in zip(a, b):
                     walk(x, y, path + "[]")
+            elif (a != b or type(a) is not type(b)) and path.endswith(".comment"):
+                # a COMMENT text is a value, not a name - also when it is written in double quotes
+                out.fail("diff-value-changed", "%s: comment text %r (normalize_names=False) vs %r (True); %r" % (path, a, b, ddl))
             elif a != b or type(a) is not type(b):
                 if isinstance(a, str) and isinstance(b, str) and (strip_delims(a) == b or gen.ws_free(strip_all(gen.ws_free(a))) == gen.ws_free(b)):
                     stats["stripped"] += 1
